@@ -10,7 +10,7 @@ BIN=/verif/_build/bin/bigintgen
 R=/tmp/bgrepo
 S=/tmp/bgself
 C=/verif/coq
-FILES="Utils Compress Member Add Keys Sign Verify Codec Hash"   # dependency order
+FILES="Utils Compress Member Add Keys Sign Verify Codec Hash Recv"   # dependency order
 
 setup_tree() {
   rm -rf $S; mkdir -p $S/coq/Gen $S/coq/Proofs
@@ -105,6 +105,37 @@ run "(iv) PackSignY: 0x80 -> 0x40"
 fresh
 mutate babyjub/eddsa.go "func SkToBigInt(" "s.Rsh(s, 3)" "s.Rsh(s, 2)"
 run "(v) SkToBigInt: s.Rsh(s, 3) -> s.Rsh(s, 2)"
+
+echo; echo "---- C19: the receiver of the documented destinations (BigIntEqRecv.v) ----"
+fresh
+mutate babyjub/babyjub.go "func (p *Point) Mul(" "	res := resProj.Affine()
+	p.X, p.Y = res.X, res.Y
+	return p" "	p = resProj.Affine()
+	return p"
+run "(R1) Point.Mul: fix reverted -- p = resProj.Affine(); return p (the receiver is never written)"
+
+fresh
+mutate babyjub/babyjub.go "func (p *Point) Decompress(" "	sign, y := UnpackSignY(leBuf)
+	res, err := PointFromSignAndY(sign, y)
+	if err != nil {
+		return nil, err
+	}
+	p.X, p.Y = res.X, res.Y
+	return p, nil" "	var sign bool
+	sign, p.Y = UnpackSignY(leBuf)
+	return PointFromSignAndY(sign, p.Y)"
+run "(R2) Point.Decompress: fix reverted -- sign, p.Y = UnpackSignY(leBuf); return PointFromSignAndY(sign, p.Y)"
+
+fresh
+mutate babyjub/babyjub.go "func (p *Point) Mul(" "	exp := q.Projective()
+" "	p.X = big.NewInt(0)
+	exp := q.Projective()
+"
+run "(R3) Point.Mul: p.X overwritten BEFORE q is read (only wrong when q is the receiver)"
+
+fresh
+mutate babyjub/babyjub.go "func (p *Point) Set(" "p.Y.Set(c.Y)" "p.Y.Set(c.X)"
+run "(R4) Point.Set: p.Y.Set(c.Y) -> p.Y.Set(c.X)"
 
 if [ "${1:-}" = "more" ]; then
   . /verif/tools/bigintgen/selftest_more.sh
